@@ -1,4 +1,5 @@
 import GateryModel.C13.Sound
+import GateryModel.C13.CommentLemmas
 /-!
 # C13 — property theorems (identifier part)
 
@@ -107,6 +108,24 @@ theorem retry_loop_terminates (V : List Name) (initial : Name) (attempt : Nat) :
 /-- The bounded walk `chain` is exactly the parent closure `isNameInUse` recurses through, for every well-formed parent table. -/
 theorem chain_is_parent_closure (t : Tree) (hwf : t.WF) (i j : Nat) : j ∈ chain t i ↔ Anc t i j :=
   ⟨chain_sound, chain_complete hwf⟩
+
+/-- **User comments stay comments.** For every comment text whatsoever (any characters: line breaks, leading blanks or tabs,
+`--`, quotes, semicolons, VHDL keywords, any length), every entity name and every indentation depth, each line written by the
+four comment formatters of `DefaultCodeFormatting` (entity header, block header, process comment, per-statement code comment;
+model `C13/Comments.lean`, tied to the code by differential execution of the real formatters) is blank or starts, after
+blanks, with `--`: no character of a user comment can reach the VHDL lexer as code. -/
+theorem comments_stay_comments (entityName comment : List Char) (indentation : Nat) :
+    (∀ l ∈ (Comments.formatEntityComment {} entityName comment).lines, Comments.commentedLine l = true) ∧
+    (∀ l ∈ (Comments.formatBlockComment {} comment).lines, Comments.commentedLine l = true) ∧
+    (∀ l ∈ (Comments.formatProcessComment {} indentation comment).lines, Comments.commentedLine l = true) ∧
+    (∀ l ∈ (Comments.formatCodeComment {} indentation comment).lines, Comments.commentedLine l = true) :=
+  ⟨Comments.entity_commented entityName comment, Comments.block_commented comment,
+   Comments.process_commented indentation comment, Comments.code_commented indentation comment⟩
+
+/-- non-vacuity: an indented multi-line comment with code-like text; three comment lines are really produced -/
+example : ((Comments.formatEntityComment {} "adder".toList "Adds.\n    carry <= '1';\n\tsee notes".toList).lines.map String.ofList) =
+    ["------------------------------------------------", "--  Entity: adder", "-- Adds.", "--     carry <= '1';", "-- \tsee notes",
+     "------------------------------------------------", "", ""] := by decide
 
 /-! ## non-vacuity -/
 
